@@ -267,3 +267,31 @@ package graphql
 //@   entry ghost panicked = false
 //@   call SafeExecuteBatchResolver$1 ghost panicked = callee_recovered
 //@   ensures panicked ==> err != nil && results == nil
+
+// ---- C19: "one use of a fragment never affects another use of the same fragment": converting a selection set
+// writes only objects it allocated itself - in particular not the shared entries of the fragment table.
+//@ func parseDirectives
+//@   assigns nothing
+//@   loop 1 invariant d == nil || fresh(d)
+//@ func argsToJson
+//@   assigns nothing
+//@   loop 1 invariant fresh(args)
+
+// ---- C18: each literal kind maps to the JSON shape encoding/json yields for the same value; a variable is looked up
+// (absent: nil); nothing but fresh objects is written.
+//@ func valueToJson
+//@   assigns nothing
+//@   ensures value is *ast.StringValue ==> err == nil && result == any(value.(*ast.StringValue).Value)
+//@   ensures value is *ast.BooleanValue ==> err == nil && result == any(value.(*ast.BooleanValue).Value)
+//@   ensures value is *ast.EnumValue ==> err == nil && result == any(value.(*ast.EnumValue).Value)
+//@   ensures value is *ast.Variable ==> err == nil && result == vars[value.(*ast.Variable).Name.Value]
+//@   ensures value is *ast.IntValue && err == nil ==> result is float64
+//@   ensures value is *ast.FloatValue && err == nil ==> result is float64
+//@   ensures value is *ast.ListValue && err == nil ==> result is []interface{} && len(result.([]interface{})) == len(value.(*ast.ListValue).Values) && fresh(result.([]interface{}))
+//@   ensures value is *ast.ObjectValue && err == nil ==> result is map[string]interface{} && fresh(result.(map[string]interface{}))
+//@   ensures !(value is *ast.StringValue || value is *ast.BooleanValue || value is *ast.EnumValue || value is *ast.Variable || value is *ast.IntValue || value is *ast.FloatValue || value is *ast.ListValue || value is *ast.ObjectValue) ==> err != nil
+//@   loop 1 invariant fresh(obj)
+//@   loop 2 invariant fresh(list) && len(list) == rangeindex+1 && rangeindex < len(value.(*ast.ListValue).Values)
+//@ func parseSelectionSet
+//@   assigns nothing
+//@   loop 1 invariant (selections == nil || fresh(selections)) && (fragments == nil || fresh(fragments))
